@@ -68,6 +68,19 @@ def checkAssert (s : St) (toks : List String) : Option String :=
      | pc => some s!"model has {wpcName pc}, implementation waits for a reconnect sequence")
   | ["?spc", q, want] => cmp (spcName (s.seqs (q.toNat?.getD 0)).pc) want
   | ["?sfirst", q, want] => cmp (if (s.seqs (q.toNat?.getD 0)).first then "1" else "0") want
+  | ["?after", out, sr, stop, want] =>
+    -- DoCommand's decision after one execution of the command (the proved `afterExec`) against what the real
+    -- loop did next
+    let o : CmdOut := match out with | "ok" => .ok | "eof" => .eof | "retry" => .retriable | _ => .other
+    let nxt := match afterExec o (sr = "1") (stop = "1") with
+      | .returnNil => "returnNil"
+      | .returnErr .eof => "returnErr:eof"
+      | .returnErr .retriable => "returnErr:retry"
+      | .returnErr .other => "returnErr:other"
+      | .returnErr .ok => "returnErr:ok"
+      | .backoffThenRerun => "backoffThenRerun"
+      | .waitForConnectionThenRerun => "waitForConnectionThenRerun"
+    cmp nxt want
   | ["?chan", want] => cmp (optName s.reconnectChan) want
   | ["?client", want] => cmp (optName s.client) want
   | ["?current", want] => cmp (optName s.current) want
